@@ -406,6 +406,9 @@ def job_bounded(tier, rng, din, dout):
                         K2 = ch.choi_op_to_kraus_op(choi, din); K3 = ch.super_op_to_kraus_op(sup)
                         ok = ok and np.abs(ch.apply_kraus_op(K2, rho) - ref).max() < 1e-8 and np.abs(ch.apply_kraus_op(K3, rho) - ref).max() < 1e-8
                         ok = ok and np.abs(ch.kraus_op_to_choi_op(K2) - choi).max() < 1e-8
+                        if sk == 'full':      # a channel given only as a linear map on matrices is converted to an equivalent Kraus set
+                            K4 = ch.hf_channel_to_kraus_op(lambda r_: ch.apply_kraus_op(K, r_), din)
+                            ok = ok and np.abs(ch.apply_kraus_op(K4, rho) - ref).max() < 1e-8 and np.abs(ch.kraus_op_to_choi_op(K4) - choi).max() < 1e-8
                         ok = ok and abs(np.trace(ref) - 1) < 1e-9 and np.linalg.eigvalsh((ref + ref.conj().T) / 2).min() > -1e-9
                         # torch branches
                         ok = ok and np.abs(ch.kraus_op_to_choi_op(torch.tensor(K)).numpy() - choi).max() < 1e-10
